@@ -54,6 +54,9 @@ class World {
       a: () => self.nextAct++,
       t: (v) => !!v || true,
       c: (act, site) => self.condProbe(act, site),
+      n: (v) => v,
+      K: class K { constructor (v) { this.v = v } },
+      tag: (strs, ...vals) => vals.join(''),
       reg: (name, fn, kind) => { self.callables.push({ name, fn, kind }); if (self.callables.length > self.limits.registry) self.callables.shift() },
       regClass: (name, C, members) => { self.classes.push({ name, C, members }); if (self.classes.length > 12) self.classes.shift() },
       enter: (act, name) => { self.ev('enter', act); self.stat('activations') },
